@@ -23,6 +23,14 @@ def run(chk):
         for k in (69, 75, 84, 91, 101):
             jobs.append(('k%d' % k, ['codec-block', '--blocks', '%d:1' % k, '--seqs', 12]))
         rankmax = 110
+    # block sizes beyond the rank oracle: one received set decoded on both back-ends and in two batchings must give one outcome
+    import random
+    rnd = random.Random(chk.seed + 17)
+    big = [61, 101, 249, 250, 251, 860, 913, 938] + [rnd.randint(62, 3000) for _ in range(32 if chk.quick else 150)] \
+        + ([] if chk.quick else [3970, 5000, 8654, 12000] + [rnd.randint(3000, 12000) for _ in range(20)])
+    for i in range(0, len(big), 5):
+        jobs.append(('cross%d' % i, ['codec-block', '--blocks', ';'.join('%d:%d' % (k, 1 + (k % 3 == 0)) for k in big[i:i + 5]),
+                                     '--seqs', 0, '--cross', 4 if chk.quick else 8]))
     ok, st = cc.run_traces(chk, exe, jobs, rankmax, nproc=14, timeout=10000)
     # the solver's own steps: operation vectors recorded while decoding random received sets (standard and GF(2)-only route,
     # both back-ends) replayed on the RFC matrix of that set as behaviours of Elim.tla
@@ -64,7 +72,8 @@ def run(chk):
     chk.cov['rule'] = ('per K: sequences of SourceBlockDecoder::decode calls: (a) nsrc source symbols + repair up to exactly K '
                        'then one at a time to K+3; (b) K-1 source + repair; (c) one batch of K\'+H..+3 symbols with a source '
                        'symbol missing (GF(2)-only attempt and its fall-back); (d) K repair symbols at once, then singles, then '
-                       'all source symbols; repair ESIs from a window after K, scattered 24-bit ESIs and 2^24-1; alternating '
+                       'all source symbols; for ~40 (thorough ~190) block sizes up to 3000 (12000) - beyond the rank oracle - one received set of K..K+3 symbols decoded '
+                       'on both back-ends and in two batchings must give one outcome and the original bytes; repair ESIs from a window after K, scattered 24-bit ESIs and 2^24-1; alternating '
                        'sparse/dense back-end. Every call\'s Some/None and bytes validated by TLC (exact rank, K\' <= %d). '
                        'distinct_nontrivial = sequences accepted; legitimate failures (None at >= K symbols, certified rank '
                        'deficient by TLC) are counted separately; plus a hunt: random K and K+1 subsets decoded by the real decoder, every '
